@@ -16,6 +16,7 @@ def make (kind : String) (s i : Nat) : Elem :=
   | "b3" => [val s i 0, val s i 1, val s i 2]
   | "slot" => slotMake s i
   | "p2" => [val s i 0, val s i 1]
+  | "w1" => [val s i 0]
   | _ => slotMake s (3 * i) ++ slotMake s (3 * i + 1) ++ slotMake s (3 * i + 2)
 
 def slotZ : Elem → Elem
@@ -25,6 +26,7 @@ def slotZ : Elem → Elem
 def zOf (kind : String) (e : Elem) : Elem :=
   match kind with
   | "slot" => slotZ e
+  | "w1" => [255]
   | "nest" => slotZ (e.take 3) ++ slotZ ((e.drop 3).take 3) ++ slotZ (e.drop 6)
   | _ => e.map fun _ => 0
 
@@ -35,6 +37,7 @@ def dOf (kind : String) : Elem :=
   | "u8" | "u64" => [0]
   | "b3" => [0, 0, 0]
   | "p2" => [17, 34]
+  | "w1" => [51]
   | "slot" => [7, 0, 4660]
   | _ => [7, 0, 4660, 7, 0, 4660, 7, 0, 4660]
 
